@@ -8,7 +8,7 @@ use crate::runner::*;
 use crate::tape::{Fp, Tape};
 use core::ffi::{c_int, c_uint, c_void};
 
-pub const RULE: &str = "tape -> history over {deflateInit2, deflateSetDictionary, deflate*, deflateCopy (then both streams live), deflateReset, deflateEnd} or {inflateInit2, inflate*, inflateCopy, inflateReset2, inflateEnd} or {inflateBackInit, inflateBack, inflateBackEnd}, with a tracking zalloc/zfree (live set keyed by pointer, opaque check, garbage fill, poison on free). The history is run once to count the N allocation requests, then re-run for EVERY k < N with request k failing and with all requests >= k failing (exhaustive in k). Oracle: every block obtained is released exactly once with the same opaque no later than End; nothing foreign is released; on a failing run the call in progress returns Z_MEM_ERROR, then the ordinary clean-up (End on every stream held, including the destination of a failed copy) leaves the live set empty and frees nothing twice, re-initialisation succeeds, and the other stream still produces exactly the control output. Non-trivial = the failing request is not the first of the history or the history has a copy/reset before the failure; distinct by (history, k, mode).";
+pub const RULE: &str = "tape -> history over {deflateInit2, deflateSetDictionary, deflate*, deflateCopy (then both streams live), deflateReset, deflateEnd} or {inflateInit2, inflate*, inflateCopy, inflateReset2, inflateEnd} or {inflateBackInit, inflateBack, inflateBackEnd}, with a tracking zalloc/zfree (live set keyed by pointer, opaque check, garbage fill, poison on free; sometimes only one of the two callbacks is supplied - obtaining and releasing must still go through one and the same allocator); plus gz-layer histories under a counting / failing global allocator. The history is run once to count the N allocation requests, then re-run for EVERY k < N with request k failing and with all requests >= k failing (exhaustive in k). Oracle: every block obtained is released exactly once with the same opaque no later than End; nothing foreign is released; on a failing run the call in progress returns Z_MEM_ERROR, then the ordinary clean-up (End on every stream held, including the destination of a failed copy) leaves the live set empty and frees nothing twice, re-initialisation succeeds, and the other stream still produces exactly the control output. Non-trivial = the failing request is not the first of the history or the history has a copy/reset before the failure; distinct by (history, k, mode).";
 
 #[derive(Clone, Copy, PartialEq, Debug)]
 enum FailMode {
@@ -31,6 +31,9 @@ struct Hist {
     wbits_inf: c_int,
     /// end the original stream prematurely (busy), then End again / re-init with failing allocator / End
     abandon: bool,
+    /// 0: zalloc and zfree both supplied; 1: only zalloc; 2: only zfree (the library must then use ONE allocator
+    /// consistently - whichever - for obtaining and releasing)
+    partial: u8,
 }
 
 struct RunOut {
@@ -147,6 +150,11 @@ fn run_hist(h: &Hist, tr: &Tracker, mode: FailMode, ar: &Arenas) -> RunOut {
     );
     let mut s = Box::new(zs());
     tr.install(&mut s);
+    match h.partial {
+        1 => s.zfree = None,
+        2 => s.zalloc = None,
+        _ => {}
+    }
     let mut t: Option<Box<z_stream>> = None;
     macro_rules! problem {
         ($sig:expr, $($arg:tt)*) => {
@@ -658,7 +666,7 @@ pub fn case(tape: &[u8], ctx: &Ctx) -> Outcome {
         Some(c) => c,
         None => return o,
     };
-    let h = Hist {
+    let mut h = Hist {
         kind,
         cfg,
         data,
@@ -671,8 +679,15 @@ pub fn case(tape: &[u8], ctx: &Ctx) -> Outcome {
         end_copy_first: t.bool(),
         wbits_inf: cfg.inflate_bits(),
         abandon: kind != 2 && t.chance(70),
+        partial: 0,
     };
     let fill = t.pick(&[0x00u8, 0xFF, 0xA5, 0x5A]);
+    h.partial = [0u8, 0, 0, 0, 0, 0, 1, 2][t.below(8)];
+    if h.partial != 0 {
+        // the library falls back to its own allocator: nothing of ours can be made to fail
+        h.abandon = false;
+    }
+    let h = h;
     ARENAS.with(|ar| {
         let tr = Tracker::new(fill);
         guard::register(&tr);
